@@ -7,9 +7,9 @@ import c01, c03
 
 PID = "C02"
 LEVEL = "proof"
-COQ_TARGETS = ["Props/C02.vo", "Props/C02_identities.vo"]
-PROPS_FILES = ["C02", "C02_identities"]
-THEOREMS = ["C02_binv_recurrence", "C02_binv_sampler_event", "C02_binomial_flip", "C02_geometric_split", "C02_std_geometric_form",
+COQ_TARGETS = ["Props/C02.vo", "Props/C02_identities.vo", "Props/C02_fp.vo"]
+PROPS_FILES = ["C02", "C02_identities", "C02_fp"]
+THEOREMS = ["C02_fingerprints", "C02_binv_recurrence", "C02_binv_sampler_event", "C02_binomial_flip", "C02_geometric_split", "C02_std_geometric_form",
             "C02_hyper_reflect_bijection", "C02_hyper_reflect_pmf", "C02_hin_recurrence", "C02_zeta_identity", "C02_zeta_accept_le_1",
             "C02_zipf_accept_mass", "C02_knuth_form", "C02_fingerprints"]
 TRUSTED_BASE = [
